@@ -30,6 +30,8 @@ type vDetStep struct {
 	Pix    [][]int `json:"pix"`
 	Pix2   [][]int `json:"pix2"`
 	FfcAge int     `json:"ffcAge"` // ms since the last FFC
+	// processor chain only: the storage StopRecording call made by this reset / frame fails
+	StopFail bool `json:"stopFail"`
 }
 type vDetScript struct {
 	Cfg   vDetCfg    `json:"cfg"`
